@@ -144,6 +144,9 @@ def check(tier, seed, t0):
     total = 200 if tier == "quick" else 6000
     parts = [("lib", common.run_rgmon("c17", tier, seed)),
              ("cli", common.run_cli_cases(None, cli_case, seed, "c17cli", total, 13 if tier == "quick" else 100))]
+    if tier == "thorough":
+        import sanitize
+        parts.append(("miri", sanitize.miri_leg("C17", 5)(tier, seed)))
     rep = common.merge_reports(parts)
     return common.finalize("C17", tier, seed, "exploration", RULE, rep, t0, ASSUME,
                            floor_eval=300, floor_distinct=150)
